@@ -18,7 +18,7 @@ enum Role : uint8_t { R_NONE, R_REG, R_RM, R_VVVV, R_IS4, R_OPREG, R_IMM };
 enum Enc : uint8_t { E_LEGACY, E_VEX, E_EVEX, E_XOP };
 enum : uint8_t { F_K = 1, F_Z = 2, F_NOABS_ACC = 4 };
 
-struct Op { uint8_t kind, role; uint16_t size; int16_t fixed; };  // fixed: -1 free; >= 0 required register id / immediate value; -2 sign-extended immediate
+struct Op { uint8_t kind, role; uint16_t size; int16_t fixed; char acc; };  // fixed: -1 free; >= 0 required register id / immediate value; -2 sign-extended immediate; -3 zero-extended (unsigned) immediate
 struct Form {
   uint32_t inst;
   uint8_t enc, pp /*0 none,1=66,2=F3,3=F2*/, map /*legacy: 0 none,1=0F,2=0F38,3=0F3A; vex/evex mmmmm*/, opcode;
@@ -32,6 +32,7 @@ struct Form {
   uint8_t disp8_shift;
   uint8_t flags;
   uint8_t nfixed; uint8_t fixed[2];  // extra fixed bytes following the opcode ([OP] records such as 0F 01 CA)
+  uint32_t flags_read, flags_written;   // CPU status flags per the record's `io` field (C12)
 };
 
 // ---- what was handed to the assembler
@@ -247,7 +248,7 @@ static inline uint32_t pick(uint32_t mask) { return nondet_u8() & mask; }
 
 // Symbolic operands for a group of forms (all forms of a group have the same operand kinds). Fills `o` and `g`.
 template<bool X64>
-static void build_operands(const Form* forms, uint32_t nforms, int evex_split, Operand_* o, Given& g) {
+static void build_operands(const Form* forms, uint32_t nforms, int evex_split, Operand_* o, Given& g, bool in_domain = false) {
   const Form& f0 = forms[0];
   memset(&g, 0, sizeof(g)); g.mem_index = -1;
   for (int i = 0; i < 4; i++) o[i].reset();
@@ -296,6 +297,10 @@ static void build_operands(const Form* forms, uint32_t nforms, int evex_split, O
         if (nb == 0) nb = 1;   // only constant-immediate records (shift by 1): still offer any 8-bit value
         int64_t v = int64_t(nondet_u64());
         if (nb < 8) { uint32_t sh = 64 - 8 * nb; v = (v << sh) >> sh; }   // any value of that width, sign-extended
+        if (in_domain) {   // unsigned immediates (immu8/16/32) are zero-extended when every record of the group says so
+          bool all_unsigned = true; for (uint32_t i = 0; i < nforms; i++) if (forms[i].ops[k].fixed < 0 && forms[i].ops[k].fixed != -3) all_unsigned = false;
+          if (all_unsigned && nb < 8) v = int64_t(uint64_t(v) & ((1ull << (8 * nb)) - 1));
+        }
         g.imm = uint64_t(v); o[k] = Imm(v);
         break;
       }
@@ -312,7 +317,17 @@ static void build_operands(const Form* forms, uint32_t nforms, int evex_split, O
     g.k = pick(7);
     if ((kflags & F_Z) && g.k && nondet_bool()) { g.z = true; }
   }
-  if (evex_split) {
+  if (in_domain) {   // a register operand that every record of the group fixes (cl, dx, al..) takes that register
+    for (uint32_t k = 0; k < f0.nops; k++) {
+      if (f0.ops[k].kind < K_GP8 || f0.ops[k].kind > K_GP64 || f0.ops[k].fixed < 0) continue;
+      bool all_same = true; for (uint32_t i = 1; i < nforms; i++) if (forms[i].ops[k].fixed != f0.ops[k].fixed) all_same = false;
+      if (all_same) V_ASSUME(g.reg_enc[k] == uint32_t(f0.ops[k].fixed) && !g.gp8_hi[k]);
+    }
+  }
+  if (evex_split == 3 || evex_split == 4) {   // D4 region: segment override together with an address-size override
+    bool long_form = g.mem_index >= 0 && g.mem.seg != 0 && g.mem.addr32;
+    V_ASSUME(long_form == (evex_split == 4));
+  } else if (evex_split) {
     bool needs_evex = g.k != 0;
     for (uint32_t k = 0; k < f0.nops; k++) { if (f0.ops[k].kind == K_ZMM) needs_evex = true; if (is_vec(f0.ops[k].kind) && g.reg_enc[k] >= 16) needs_evex = true; }
     V_ASSUME(needs_evex == (evex_split == 2));
@@ -349,10 +364,10 @@ static void run_forms(const Form* forms, uint32_t nforms, int evex_split = 0) {
 
 // C13: strict validation on vs off - same verdict, same bytes - for every operand assignment of the group.
 template<bool X64>
-static void run_agree(const Form* forms, uint32_t nforms) {
+static void run_agree(const Form* forms, uint32_t nforms, int split = 0) {
   const Form& f0 = forms[0];
   Operand_ o[4]; Given g;
-  build_operands<X64>(forms, nforms, 0, o, g);
+  build_operands<X64>(forms, nforms, split, o, g, true);   // operands inside the records' domain
   Operand_ ext[3]; ext[0] = o[3]; ext[1].reset(); ext[2].reset();
   uint8_t b1[16]; Error e1, e2; size_t n1, n2;
   {
@@ -382,10 +397,10 @@ static void run_agree(const Form* forms, uint32_t nforms) {
 // C16: output is independent of whether a logger is attached.
 static char dummy_logger_storage[8];
 template<bool X64>
-static void run_logindep(const Form* forms, uint32_t nforms) {
+static void run_logindep(const Form* forms, uint32_t nforms, int split = 0) {
   const Form& f0 = forms[0];
   Operand_ o[4]; Given g;
-  build_operands<X64>(forms, nforms, 0, o, g);
+  build_operands<X64>(forms, nforms, split, o, g);
   Operand_ ext[3]; ext[0] = o[3]; ext[1].reset(); ext[2].reset();
   uint8_t b1[16]; Error e1, e2; size_t n1, n2;
   {
@@ -412,13 +427,62 @@ static void run_logindep(const Form* forms, uint32_t nforms) {
   if (e1 == Error::kOk) { V_ASSERT(venv::n_logged == 1, "an accepted instruction is logged exactly once"); V_WITNESS("logged"); }
   verif_observe(uint32_t(e1)); verif_observe(n1);
 }
+
+// C12 (database agreement): InstAPI::query_rw_info for the same symbolic operands reports, per explicit operand, the
+// read/write access of the database record (R:/W:/X:/w:/x:), zero-extension of 32-bit GP destinations in 64-bit mode,
+// no extension for partial (8/16-bit) writes, and the CPU status flags of the record's `io` field.
+template<bool X64>
+static void run_rw(const Form* forms, uint32_t nforms, int split = 0) {
+  const Form& f0 = forms[0];
+  Operand_ o[4]; Given g;
+  build_operands<X64>(forms, nforms, split == 1 || split == 2 ? 0 : 0, o, g);
+  // same-register idioms (xor r,r ...) legitimately change the access: outside this harness
+  for (uint32_t i = 0; i < f0.nops; i++) for (uint32_t j = i + 1; j < f0.nops; j++)
+    if (f0.ops[i].kind == f0.ops[j].kind && f0.ops[i].kind != K_MEM && f0.ops[i].kind != K_IMM) V_ASSUME(g.reg_enc[i] != g.reg_enc[j]);
+  BaseInst inst(f0.inst, g.z ? InstOptions::kX86_ZMask : InstOptions::kNone, RegOnly());
+  if (g.k) inst._extra_reg.init(x86::k(g.k));
+  InstRWInfo rw;
+  Error e = x86::InstInternal::query_rw_info(X64 ? Arch::kX64 : Arch::kX86, inst, o, f0.nops, &rw);
+  V_ASSERT(e == Error::kOk, "read/write information is available for the form");
+  V_ASSERT(rw.op_count() == f0.nops, "operand count reported");
+  for (uint32_t i = 0; i < f0.nops; i++) {
+    const Op& op = f0.ops[i]; const OpRWInfo& w = rw.operand(i);
+    // all records of a group must agree on the access before it is asserted
+    bool agree = true; for (uint32_t k = 1; k < nforms; k++) if (forms[k].ops[i].acc != op.acc) agree = false;
+    if (op.kind == K_IMM || op.acc == '?' || !agree) continue;
+    bool rd = op.acc == 'R' || op.acc == 'X' || op.acc == 'x', wr = op.acc == 'W' || op.acc == 'X' || op.acc == 'w' || op.acc == 'x';
+    // merge-masking: {k} without {z} on a form that also admits {z} keeps the unselected destination elements (the destination is
+    // read). Forms that admit only {k} (mask-register results of compares/tests/fpclass) zero the unselected bits instead.
+    bool zeroing_capable = false; for (uint32_t k = 0; k < nforms; k++) if (forms[k].flags & F_Z) zeroing_capable = true;
+    if (i == 0 && wr && g.k && !g.z && zeroing_capable) rd = true;
+    verif_observe(uint32_t(w.op_flags()));
+    if (op.kind == K_MEM) {
+      V_ASSERT(w.is_read() == rd && w.is_write() == wr, "memory operand access equals the database record");
+    } else {
+      V_ASSERT(w.is_read() == rd, "register operand is reported read exactly when the database marks it R or X");
+      V_ASSERT(w.is_write() == wr, "register operand is reported written exactly when the database marks it W or X");
+      if (wr && X64 && op.kind == K_GP32 && (op.acc == 'W' || op.acc == 'X')) V_ASSERT((w.write_byte_mask() | w.extend_byte_mask()) == 0xFFu, "a 32-bit GP destination is written or zero-extended over all 8 bytes in 64-bit mode");
+      if (wr && (op.kind == K_GP8 || op.kind == K_GP16) && (op.acc == 'w' || op.acc == 'x')) V_ASSERT(!w.is_zext() && w.extend_byte_mask() == 0, "a partial 8/16-bit write does not extend");
+    }
+  }
+  bool same_io = true; for (uint32_t k = 1; k < nforms; k++) if (forms[k].flags_read != f0.flags_read || forms[k].flags_written != f0.flags_written) same_io = false;
+  if (same_io) {
+    V_ASSERT(uint32_t(rw.read_flags()) == f0.flags_read, "CPU flags read equal the database io field");
+    V_ASSERT(uint32_t(rw.write_flags()) == f0.flags_written, "CPU flags written equal the database io field");
+  }
+  V_WITNESS("rw-checked");
+}
 }  // namespace vf
 
-// C01 compiles the generated harnesses as encoding checks, C13 (VF_AGREE) as validation on/off agreement checks.
-#if defined(VF_LOGINDEP)
-#define VF_RUN(X64, TAB, CNT) vf::run_logindep<X64>(TAB, CNT)
+// C01 compiles the generated harnesses as encoding checks; C13 (VF_AGREE), C16 (VF_LOGINDEP) and C12 (VF_RW) reuse the
+// family with other runners. SPLIT selects the operand region when a known finding is open (see run_forms).
+#if defined(VF_RW)
+#define VF_RUN(X64, TAB, CNT, SPLIT) vf::run_rw<X64>(TAB, CNT, SPLIT)
+#elif defined(VF_LOGINDEP)
+#define VF_RUN(X64, TAB, CNT, SPLIT) vf::run_logindep<X64>(TAB, CNT, SPLIT)
 #elif defined(VF_AGREE)
-#define VF_RUN(X64, TAB, CNT) vf::run_agree<X64>(TAB, CNT)
+#define VF_RUN(X64, TAB, CNT, SPLIT) vf::run_agree<X64>(TAB, CNT, SPLIT)
 #else
-#define VF_RUN(X64, TAB, CNT) vf::run_forms<X64>(TAB, CNT)
+#define VF_C01 1
+#define VF_RUN(X64, TAB, CNT, SPLIT) vf::run_forms<X64>(TAB, CNT, SPLIT)
 #endif
